@@ -75,11 +75,21 @@ CHECKS = {
         note="parameter-class equality decides which calls must share a Module; two same-named Modules as parameter values and unhashable dict-parameter calls are excluded as grey",
         tech="exhaustive enumeration of value pairs and of call-order permutations (operation histories) executed on the implementation, differential oracle across histories and processes",
         ref="DESIGN.md 2/C09"),
+    "C15": dict(
+        text="every row of every documented device table of the sample, Sky130, GF180 and ASAP7 PDKs (golden tables transcribed from the readmes) selected by model name with the documented and the wrong terminal count, with sizes given / defaulted and multipliers, and all 84 (type, family, threshold) Mos triples per PDK, each placed in a three-level hierarchy with shared sub-modules: snapshot of hierarchy / names / connection identity before and after compile, documented device name, port set, parameter values, export and spice + spectre netlists, compile-twice and compile-by-two-PDKs idempotence, equal parameters; hdl21.pdk.compile by default / name / module / package with one and several registered PDKs in fresh sub-processes; every logic cell (about 3150) instantiated with each port on its own net, exported and netlisted",
+        note="GF180 documents no threshold column: non-standard thresholds and the ambiguous family NONE are judged 'any matching row or a descriptive error'; 66 open known findings (terminal-count mismatches the repository's own tests rely on) are listed in known_findings.json",
+        tech="exhaustive enumeration of the documented device tables and parameter triples executed on the implementation, oracle = transcribed documentation tables plus before/after snapshots",
+        ref="DESIGN.md 2/C15"),
     "C16": dict(
         text="depth-3 hierarchies with shared sub-modules, scalar and bus nets, internal nets at every level and primitive / external-module leaves at every level, over every assignment of each instance port to a same-width signal in scope (2 x 64 x 64, 1/4 in quick), with adversarial root-level signal names equal to flatten()'s path names; flatten(m) must contain only leaves, one per leaf device of the reference semantics, keep m's ports, and export exactly the reference leaf-level partition - or raise (only allowed for colliding names and for slices / concats / arrays)",
         note="instance names are not adversarial (the comparison maps reference paths to ':'-joined names)",
         tech="exhaustive enumeration of bounded design programs executed on the implementation, compared with a reference semantics",
         ref="DESIGN.md 2/C16"),
+    "C17": dict(
+        text="Sim descriptions (every analysis type named and unnamed x nine Scalar spellings, three sweep kinds, Sweep>Monte>Tran and Monte>Sweep>{Dc,Op} nesting, every save-target form, params / options / includes / libs / literals / measurements in mixed order) are built four ways (constructor list, add(), add-methods, @sim class) and exported alone, in a list sharing the testbench and in a list with distinct testbenches; a reference translator gives the expected SimInput field by field and in order; generated analysis names must be distinct; testbenches without exactly one scalar port must be refused",
+        note="SaveMode.SELECTED has no VLSIR counterpart and is outside the alphabet; clashes between generated and user-chosen analysis names are not judged",
+        tech="exhaustive enumeration of a bounded input family executed on the implementation, oracle = reference translator",
+        ref="DESIGN.md 2/C17"),
     "C18": dict(
         text="breadth-first search over all setattr / add(named) / add(name=) operations with names {a,b} and every attribute kind on a real Module (states merged on the reference model's state, to a fixpoint) plus all un-merged histories up to length 2 (3 thorough); after every step get(), attribute access, the six views, the namespace, port visibility and parent pointers are compared with a dict model, rejected operations are tried in every state and every state is exported and compared with the reference semantics; the same for Bundles to length 3 (4); class-style vs procedural definitions over all sequences up to length 2 (3)",
         note="storing one object under two different names is outside the alphabet (unspecified behaviour)",
